@@ -177,7 +177,7 @@ func EnumPaths(fn *ssa.Function, from *ssa.BasicBlock, fromIdx int, init *PathSt
 					if !known {
 						recordBranch(ns, x.Cond, taken)
 						if h.Branch != nil {
-							h.Branch(ns, x.Cond, taken)
+							h.Branch(ns, ns.Resolve(x.Cond), taken)
 						}
 					}
 					if visits[succ] >= 1 {
